@@ -30,9 +30,10 @@ subroutine s(a, b, c, ia, n, m, t, u, kout)
   integer :: j
   integer :: k
   real :: x
+  real :: eps
 '''
 DOM = [("n", [1, 2, 3]), ("m", [1, 2]), ("kout", [2]), ("t", [[1, 2]]), ("u", [[3, 1]]),
-       ("gcount", [5])]
+       ("gcount", [5]), ("constants_mod::eps", [[1, 4]])]
 LIVE = ["a", "b", "c", "ia", "n", "m", "t", "u", "kout", "gcount", "garr"]
 FILLS = [1, 2]
 
@@ -70,6 +71,7 @@ CALLEES = {
                          "y = real(p)", "return"]),
     "midret": ("y, p", ["real, intent(inout) :: y", "integer, intent(in) :: p",
                         "y = 2.0", "if (p > 2) return", "y = y + 1.0"]),
+    "useimp": ("y", ["use constants_mod, only: eps", "real, intent(inout) :: y", "y = y + eps"]),
     "condret": ("y, p", ["real, intent(inout) :: y", "integer, intent(in) :: p",
                          "if (p > 1) then", "  y = 0.0", "else", "  y = 1.0", "end if"]),
 }
@@ -118,6 +120,12 @@ CALLERS = [
     (["iarr"], ["call iarr(ia, a(ia(1)))"]),
     (["condret"], ["call condret(t, n)"]),
     (["addn", "clash"], ["call addn(t, n)", "call clash(t)", "call addn(u, m)"]),
+    # the callee imports `eps`; the caller has a local eps that it also prints (verbatim
+    # WRITE kept as a code block, spelt in another case)
+    (["useimp"], ["eps = 0.125", "call useimp(t)", "write(*,*) t, EPS", "u = u + eps"]),
+    (["useimp"], ["eps = 0.125", "call useimp(t)", "write(*,*) t, eps", "u = u + eps"]),
+    (["useimp"], ["eps = 0.125", "call useimp(t)", "u = u + eps"]),
+    (["useimp"], ["call useimp(t)", "call useimp(u)", "write(*,*) T, U"]),
     (["earlyret"], ["call earlyret(t, n)", "u = u + t", "a(n) = u"]),
     (["earlyret"], ["do i = 1, n", "  call earlyret(a(i), i)", "  b(i) = a(i) + 1.0", "end do"]),
     (["lastret"], ["call lastret(t, n)", "u = t * 2.0"]),
@@ -258,15 +266,24 @@ def run(tier):
     dom, fills = DOM, FILLS
     if tier != "quick":
         dom = [("n", [0, 1, 2, 3, 4]), ("m", [1, 2, 3]), ("kout", [2, 4]), ("t", [[1, 2], [-3, 2]]),
-               ("u", [[3, 1], [0, 1]]), ("gcount", [5, 1])]
+               ("u", [[3, 1], [0, 1]]), ("gcount", [5, 1]), ("constants_mod::eps", [[1, 4], [-1, 2]])]
         fills = [1, 2, 3, 4]
     fam = sem.TransFamily("C07", dom=dom, fills=fills, live=LIVE, apps=apps)
+
+    def make():
+        ex = sem.Exporter()
+        ex.import_types = {"eps": "r"}
+        return ex
+    fam.make_exporter = make
     results = sem.build_family(fam, items(tier))
     for r in results:
         if r["status"] == "accepted":
             for d in r["case"]["decls"]:
                 if d["name"] == "ia":
                     d["data"] = [[2, 1, 4, 3], [1, 1, 2, 2]]
+    for r in results:
+        if r["status"] == "accepted":
+            r["case"]["cmpout"] = True        # WRITE statements are observable events
     cov = sem.judge_family(out, results, MATCHERS)
     cov["rule"] = ("one case = (caller/callee pair, call or call sequence inlined); non-trivial = "
                    "InlineTrans accepted and the original is defined on at least one input")
